@@ -124,6 +124,9 @@ def parseOp (st : St) (ws : List String) : Option Op := do
       else ((toks.splitOn ",").mapM (parseTok · nb)).map Op.body
     | ["child", o] => (parseNat o).map Op.child
     | ["drop", o] => (parseNat o).map Op.drop
+    -- `set(); unset()` with the last handle = a drop of the root with no owner current (op lines run
+    -- with an empty owner stack)
+    | ["unset", o] => (parseNat o).map Op.drop
     | ["dispose", k, i] => do
       let i ← parseNat i
       let k ← parseKind k
